@@ -156,3 +156,10 @@ for _p in ("C02", "C03", "C04", "C05", "C13", "C14", "C16"):
     _s = PROPS[_p]
     _s["prop_files"] = _s.get("prop_files", [_p]) + ["C09rs"]
     _s["translate"] = ",".join(x for x in [_s.get("translate"), "render"] if x)
+
+# into_struct / extend_struct (src/parser.rs) are tied by translation too (C06rs.v): attached to the
+# checks whose theorems are stated about into_struct_ev / extend_struct_ev
+for _p in ("C03", "C06", "C08", "C11"):
+    _s = PROPS[_p]
+    _s["prop_files"] = _s.get("prop_files", [_p]) + ["C06rs"]
+    _s["translate"] = ",".join(x for x in [_s.get("translate"), "entry"] if x)
